@@ -17,7 +17,7 @@ import io
 from harness import core, histcheck, isoapi, isotie
 from harness.props import c01
 
-LEAN_MODULES = ['Pycdlib.Props.C04', 'Pycdlib.Props.Tie', 'Pycdlib.Props.C04PathTable', 'Pycdlib.Props.TiePack', 'Pycdlib.Props.C04Iso', 'Pycdlib.Props.TieGrow']
+LEAN_MODULES = ['Pycdlib.Props.C04', 'Pycdlib.Props.Tie', 'Pycdlib.Props.C04PathTable', 'Pycdlib.Props.TiePack', 'Pycdlib.Props.C04Iso', 'Pycdlib.Props.TieGrow', 'Pycdlib.Props.C08Alloc']
 THEOREMS = ['Pycdlib.place_disjoint', 'Pycdlib.place_in_bounds', 'Pycdlib.place_end_exact', 'Pycdlib.space_delta_exact',
             'Pycdlib.sectors_fit', 'Pycdlib.insert_grows_le_one', 'Pycdlib.grow_keeps_fit', 'Pycdlib.shrink_keeps_fit',
             'Pycdlib.nfScan_append', 'Pycdlib.writer_matches_cache', 'Pycdlib.writer_no_straddle', 'Pycdlib.ceiling_div_tie',
@@ -25,13 +25,14 @@ THEOREMS = ['Pycdlib.place_disjoint', 'Pycdlib.place_in_bounds', 'Pycdlib.place_
             'Pycdlib.PathTable.space_size_tie', 'Pycdlib.PathTable.addAll_independent_of_copies',
             'Pycdlib.dr_recalc_tie', 'Pycdlib.dr_recalc_init_tie',
             'Pycdlib.Iso.space_exact', 'Pycdlib.Iso.dirs_covered', 'Pycdlib.Iso.path_tables_exact', 'Pycdlib.Iso.layout_sound',
-            'Pycdlib.Iso.step_inv', 'Pycdlib.Iso.invB_iff', 'Pycdlib.Iso.init0_inv', 'Pycdlib.dr_grow_tie', 'Pycdlib.dr_shrink_tie']
+            'Pycdlib.Iso.step_inv', 'Pycdlib.Iso.invB_iff', 'Pycdlib.Iso.init0_inv', 'Pycdlib.dr_grow_tie', 'Pycdlib.dr_shrink_tie',
+            'Pycdlib.Iso.ceb_ok', 'Pycdlib.Iso.cebOkB_iff']
 PARTIAL = {
     'space_exact_partial': 'Iso.space_exact proves declared size = from-scratch layout over EVERY history of the bookkeeping machine '
-    '(directories of both hierarchies, path tables, contents with hard links, continuation blocks as a count, PVD copies, UDF directories '
+    '(directories of both hierarchies, path tables, contents with hard links, continuation blocks with the first-fit allocator that decides where an area lands and when a block is opened or given back, PVD copies, UDF directories '
     'with their File Entries and File Identifier areas, the File Entry sector shared by the UDF names of a content). Outside the '
     'machine and decided by the allocation oracle per history: the fixed UDF descriptor area and the partition length field, the El Torito catalog, isohybrid '
-    'padding, and WHICH continuation block an entry lands in (the allocator inside a block is Susp.addEntry_disjoint, C08)',
+    'padding; an edit that allocates several continuation areas at once (relocation) starts a new segment of the comparison',
 }
 TRUSTED = ['the independent reader finds every object the image uses (what it does not decode cannot be checked for overlap)']
 ASSUMPTIONS = []
